@@ -340,21 +340,55 @@ fn pick_order(r: &mut Rng, max: u32) -> u32 {
     }
 }
 
+/// Known finding `hilbert-tiny-weights-hang`: `weighted_quantiles` compares partial sums with the
+/// ABSOLUTE tolerance f64::EPSILON (`approx::abs_diff_eq!`), so with a total weight of that
+/// magnitude the quantile search does not terminate (Proofs/WqNonTermination.v).  The family is
+/// generated only when the class is listed in known_findings.json (or VERIF_C09_TINY is set), so
+/// that the check does not turn red before the integrator has recorded the finding.
+const KF_TINY: &str = "hilbert-tiny-weights-hang";
+fn tiny_enabled() -> bool {
+    if std::env::var("VERIF_C09_TINY").is_ok() {
+        return true;
+    }
+    // <root>/.cache/target*/<profile>/c09  ->  <root>/known_findings.json
+    let root = std::env::current_exe().ok().and_then(|e| e.ancestors().nth(4).map(|p| p.to_path_buf()));
+    match root.and_then(|r| std::fs::read_to_string(r.join("known_findings.json")).ok()) {
+        Some(t) => t.contains(KF_TINY),
+        None => false,
+    }
+}
+
 fn case_hilbert(r: &mut Rng, big: bool) -> Out {
-    let dim = if r.chance(1, 2) { 2 } else { 3 };
-    let (pfam, pts) = gen_points(r, dim, big);
+    let mut dim = if r.chance(1, 2) { 2 } else { 3 };
+    // decided from the case's own random stream only (replay with --only stays exact)
+    let tiny = r.chance(1, if big { 800 } else { 150 }) && tiny_enabled();
+    if tiny {
+        dim = 2;
+    }
+    let (pfam, pts) = if tiny {
+        let n = r.range(3, 7) as usize;
+        ("tiny", (0..n).map(|_| [r.below(8) as f64, r.below(8) as f64, 0.0]).collect::<Vec<_>>())
+    } else {
+        gen_points(r, dim, big)
+    };
     let n = pts.len();
-    let (wfam, ws) = gen_weights(r, n);
-    let part_count = r.range(1, n as i64 + 2) as usize;
+    let (wfam, ws) = if tiny {
+        let scale = *r.pick(&[1.0e-16f64, 3.0e-16, 1.0e-17, 5.0e-16]);
+        ("tiny_weights", (0..n).map(|_| scale * (1.0 + r.below(1000) as f64 / 500.0)).collect::<Vec<_>>())
+    } else {
+        gen_weights(r, n)
+    };
+    let part_count = if tiny { r.range(4, 7) as usize } else { r.range(1, n as i64 + 2) as usize };
     let max_order = if dim == 2 { 32 } else { 21 };
-    let order = pick_order(r, max_order);
-    let threads = *r.pick(&POOLS);
+    let order = if tiny { r.range(1, 3) as u32 } else { pick_order(r, max_order) };
+    // a hung run keeps its pool busy until the harness exits: small pools for the known hang
+    let threads = if tiny { *r.pick(&[1usize, 2]) } else { *r.pick(&POOLS) };
     // malformed stream (outside the contract; HilbertCurve does not check lengths, the model
     // follows its zips): weights / ids shorter or longer than the points
     let mut ws = ws;
     let mut plen = n;
     let mut malformed = false;
-    if r.chance(1, 15) {
+    if !tiny && r.chance(1, 15) {
         malformed = true;
         match r.below(4) {
             0 => ws.truncate(n.saturating_sub(1 + r.below(2) as usize)),
@@ -368,7 +402,10 @@ fn case_hilbert(r: &mut Rng, big: bool) -> Out {
 
     let _ = coupe::verif::drain();
     let (pts2, ws2, p02) = (pts.clone(), ws.clone(), p0.clone());
-    let res = guarded(threads, Duration::from_secs(20), move || {
+    // class of the known finding, from the INPUT alone: total weight of the order of f64::EPSILON
+    let total: f64 = ws.iter().sum();
+    let kf_tiny = !ws.is_empty() && ws.iter().all(|w| *w > 0.0) && total <= 1.0e-14;
+    let res = guarded(threads, Duration::from_secs(if kf_tiny { 6 } else { 20 }), move || {
         let mut p = p02;
         let mut alg = coupe::HilbertCurve { part_count, order };
         let r = if dim == 2 {
@@ -403,7 +440,8 @@ fn case_hilbert(r: &mut Rng, big: bool) -> Out {
         coq_impl(&res)
     );
     let json = format!(
-        "{{\"stream\":\"hilbert\",\"dim\":{},\"points\":{},\"weights\":{},\"ids_len\":{},\"part_count\":{},\"order\":{},\"threads\":{},\"exact_sums\":{},\"hilbert_indices\":{},\"hilbert_splits\":{},\"impl\":{}}}",
+        "{{\"stream\":\"hilbert\",{}\"dim\":{},\"points\":{},\"weights\":{},\"ids_len\":{},\"part_count\":{},\"order\":{},\"threads\":{},\"exact_sums\":{},\"hilbert_indices\":{},\"hilbert_splits\":{},\"impl\":{}}}",
+        if kf_tiny { format!("\"kf\":\"{}\",", KF_TINY) } else { String::new() },
         dim, json_points(&pts, dim), json_f64s(&ws), plen, part_count, order, threads, exact,
         json_u64s(&idx), json_u64s(&splits), json_impl(&res)
     );
@@ -413,7 +451,7 @@ fn case_hilbert(r: &mut Rng, big: bool) -> Out {
         key: format!("hil|{}|{:?}|{:?}|{}|{}|{}|{}", dim, pts, ws, plen, part_count, order, threads),
         nontrivial: n >= 3 && part_count >= 2 && order <= max_order && !malformed,
         family: format!("hil/{}d/{}/{}{}", dim, pfam, wfam, if malformed { "/len_mismatch" } else { "" }),
-        hang: matches!(res, Guarded::Hang),
+        hang: matches!(res, Guarded::Hang) && !kf_tiny,
         panic: matches!(res, Guarded::Panic(_)),
     }
 }
